@@ -654,7 +654,7 @@ func drawMinimize(t *simrt.Tape) *minInst {
 	if in.method == mListSearch {
 		in.rows = small(12)
 	}
-	in.knob = t.Choose(simrt.KWorkload, 3)
+	in.knob = t.Choose(simrt.KWorkload, 4)
 	if (in.method == mLBFGS || in.method == mNelderMead) && in.ls == 0 && in.knob == 0 && t.Choose(simrt.KWorkload, 3) == 2 {
 		in.nilMethod = true
 	}
@@ -751,7 +751,7 @@ func (in *minInst) build() *minRun {
 		ls = &optimize.MoreThuente{}
 	}
 	// tuning knobs: correctness must not depend on one configuration
-	gst := []float64{0, 1e-4, 0}[in.knob]
+	gst := []float64{0, 1e-4, 0, math.NaN()}[in.knob]
 	switch in.method {
 	case mGD:
 		r.method = &optimize.GradientDescent{Linesearcher: ls, GradStopThreshold: gst}
@@ -768,13 +768,13 @@ func (in *minInst) build() *minRun {
 	case mBFGS:
 		r.method = &optimize.BFGS{Linesearcher: ls, GradStopThreshold: gst}
 	case mLBFGS:
-		r.method = &optimize.LBFGS{Linesearcher: ls, GradStopThreshold: gst, Store: []int{0, 1, 3}[in.knob]}
+		r.method = &optimize.LBFGS{Linesearcher: ls, GradStopThreshold: gst, Store: []int{0, 1, 3, 0}[in.knob]}
 	case mNewton:
-		r.method = &optimize.Newton{Linesearcher: ls, GradStopThreshold: gst, Increase: []float64{0, 5, 2}[in.knob]}
+		r.method = &optimize.Newton{Linesearcher: ls, GradStopThreshold: gst, Increase: []float64{0, 5, 2, 0}[in.knob]}
 	case mNelderMead:
-		r.method = &optimize.NelderMead{SimplexSize: []float64{0, 1, 0.25}[in.knob]}
+		r.method = &optimize.NelderMead{SimplexSize: []float64{0, 1, 0.25, 0}[in.knob]}
 	case mCmaEs:
-		r.method = &optimize.CmaEsChol{Population: in.pop, ForgetBest: in.forgetBest, StopLogDet: []float64{math.NaN(), 0, math.Inf(1)}[in.cmaStop], Src: rand.NewPCG(in.seed, 77), InitStepSize: []float64{0, 0.5, 2}[in.knob]}
+		r.method = &optimize.CmaEsChol{Population: in.pop, ForgetBest: in.forgetBest, StopLogDet: []float64{math.NaN(), 0, math.Inf(1)}[in.cmaStop], Src: rand.NewPCG(in.seed, 77), InitStepSize: []float64{0, 0.5, 2, 0}[in.knob]}
 		r.pop = in.pop
 		if r.pop == 0 {
 			r.pop = 4 + int(3*math.Log(float64(in.dim)))
@@ -892,7 +892,9 @@ func (in *minInst) build() *minRun {
 	}
 	if in.initVals > 0 {
 		iv := &optimize.Location{F: o.F(in.initX)}
-		if in.initVals >= 2 && r.prob.Grad != nil {
+		if in.initVals >= 2 && (r.prob.Grad != nil || (in.method == mNelderMead && o.grad != nil)) {
+			// (NelderMead does not use a gradient; one may be supplied all
+			// the same and must not influence the run)
 			iv.Gradient = make([]float64, in.dim)
 			o.Grad(iv.Gradient, in.initX)
 		}
@@ -1229,6 +1231,14 @@ func checkSerialAnswer(rc *RunCtx, in *minInst, r *minRun) *Violation {
 		if in.forgetBest || log.nFunc < r.pop {
 			return nil // ForgetBest reports the last generation; first-generation stops are finding C19/cmaes
 		}
+		if res.Status == optimize.MethodConverge || res.Stats.MajorIterations == 0 {
+			// When CmaEsChol ends the run itself (StopLogDet) it sends the
+			// best location with MethodDone, which Minimize does not record:
+			// the last generation is not in the Result, serially or
+			// concurrently. The minimum over all evaluations is then not the
+			// serial answer either.
+			return nil
+		}
 		rc.oracle("serial-answer")
 		if res.F != min {
 			return &Violation{prop, "minimize/serial-answer/" + name, fmt.Sprintf("%s with Concurrent=%d returned F=%v but the minimum over the %d evaluations made is %v", name, in.conc, res.F, log.n, min)}
@@ -1298,6 +1308,23 @@ func checkC19(rc *RunCtx, in *minInst, r *minRun, nTasks int) *Violation {
 		if math.Float64bits(want) != math.Float64bits(res.F) {
 			return &Violation{prop, "minimize/coherence/" + class + situation, fmt.Sprintf("%s: Result.F=%v but the objective at Result.X=%v is %v (status %v, %d func evaluations, %d major iterations, Concurrent=%d)",
 				name, res.F, res.X, want, res.Status, log.nFunc, st.MajorIterations, in.conc)}
+		}
+		// a gradient-based method announces locations whose gradient (and,
+		// for Newton, Hessian) was evaluated at that X
+		if usesLS(in.method) && !in.nilMethod && in.obj.bad == 0 && res.Gradient != nil && st.MajorIterations > 0 {
+			g := make([]float64, in.dim)
+			in.obj.grad(g, res.X)
+			if !sameBits(g, res.Gradient) {
+				return &Violation{prop, "minimize/coherence/gradient/" + class, fmt.Sprintf("%s: Result.Gradient=%v is not the gradient at Result.X=%v, which is %v (status %v, %d func / %d grad evaluations, init values %d)",
+					name, res.Gradient, res.X, g, res.Status, st.FuncEvaluations, st.GradEvaluations, in.initVals)}
+			}
+			if in.method == mNewton && res.Hessian != nil && in.obj.hess != nil {
+				h := mat.NewSymDense(in.dim, nil)
+				in.obj.hess(h, res.X)
+				if !mat.Equal(h, res.Hessian) {
+					return &Violation{prop, "minimize/coherence/hessian/" + class, fmt.Sprintf("%s: Result.Hessian is not the Hessian at Result.X=%v (status %v)", name, res.X, res.Status)}
+				}
+			}
 		}
 		evaluated := log.evaluatedAt(res.X) || (in.initVals > 0 && sameBits(res.X, in.initX))
 		if !evaluated {
@@ -1373,12 +1400,23 @@ func checkC19(rc *RunCtx, in *minInst, r *minRun, nTasks int) *Violation {
 		// Settings.GradientThreshold (if positive) is applied by Minimize at
 		// MajorIterations; local methods also apply their own
 		// GradStopThreshold, which the harness leaves at its default 1e-12.
-		th := 1e-12
-		if in.knob == 1 && usesLS(in.method) {
-			th = 1e-4 // the method's own GradStopThreshold
+		// (default 1e-12, knob 1: 1e-4, knob 3: NaN = test switched off;
+		// NelderMead passes NaN, the global methods have none).
+		th := math.Inf(-1)
+		if sv := in.set.GradientThreshold; sv > 0 && !in.nilSet {
+			th = sv // 0 (the default) and NaN: not checked by Minimize
 		}
-		if in.set.GradientThreshold > th {
-			th = in.set.GradientThreshold
+		if usesLS(in.method) || (in.nilMethod && in.obj.grad != nil) {
+			switch in.knob {
+			case 1:
+				th = math.Max(th, 1e-4)
+			case 3:
+			default:
+				th = math.Max(th, 1e-12)
+			}
+		}
+		if math.IsInf(th, -1) {
+			return bad("neither Settings.GradientThreshold nor the method's GradStopThreshold is in effect (both NaN)")
 		}
 		// With several tasks in circulation MajorIterations that arrive after
 		// the terminating one still move the reported optimum, so the gradient
